@@ -245,6 +245,52 @@ def gate_obligations(run: Run) -> Tuple[int, int, Dict[str, Any]]:
     return n, ok, info
 
 
+def merge_obligations(run: Run) -> Tuple[int, int]:
+    """create_lsp_model: the first document is loaded, every further one is loaded and each of the five declaration lists
+    is extended by exactly the corresponding list of the addition, in a loop over models[1:], in order (structural)."""
+    tree = ast.parse(open(os.path.join(REPO, MODEL_REL), encoding="utf-8").read())
+    fn = next((f for f in tree.body if isinstance(f, ast.FunctionDef) and f.name == "create_lsp_model"), None)
+    n = ok = 0
+
+    def ob(cond, key, what, **d):
+        nonlocal n, ok
+        n += 1
+        if cond:
+            ok += 1
+        else:
+            run.violation(key, what, d, False)
+
+    ob(fn is not None, "merge:create_lsp_model:exists", "create_lsp_model missing")
+    if fn is None:
+        return n, ok
+    param = fn.args.args[0].arg if fn.args.args else "models"
+    src = ast.unparse(fn)
+    fields = ["requests", "notifications", "structures", "enumerations", "typeAliases"]
+    first = [x for x in ast.walk(fn) if isinstance(x, ast.Assign) and ast.unparse(x.value).replace(" ", "") == f"LSPModel(**{param}[0])"]
+    ob(len(first) == 1, "merge:create_lsp_model:first", f"the result is not initialised as LSPModel(**{param}[0])", source=src[:600])
+    spec_name = ast.unparse(first[0].targets[0]) if first else "spec"
+    loops = [x for x in ast.walk(fn) if isinstance(x, ast.For)]
+    ob(len(loops) == 1 and ast.unparse(loops[0].iter).replace(" ", "") == f"{param}[1:]", "merge:create_lsp_model:loop", f"the additions are not taken from a single loop over {param}[1:] (in order)", loops=[ast.unparse(l.iter) for l in loops])
+    if len(loops) == 1:
+        lp = loops[0]
+        var = ast.unparse(lp.target)
+        adds = [x for x in lp.body if isinstance(x, ast.Assign) and ast.unparse(x.value).replace(" ", "") == f"LSPModel(**{var})"]
+        ob(len(adds) == 1, "merge:create_lsp_model:addition", "each further document is not loaded as LSPModel(**model) exactly once per iteration")
+        add_name = ast.unparse(adds[0].targets[0]) if adds else "addition"
+        calls = [ast.unparse(x.value).replace(" ", "") for x in lp.body if isinstance(x, ast.Expr) and isinstance(x.value, ast.Call)]
+        for f in fields:
+            want = f"{spec_name}.{f}.extend({add_name}.{f})"
+            ob(calls.count(want) == 1, f"merge:create_lsp_model:extend:{f}", f"the loop body does not extend {spec_name}.{f} by {add_name}.{f} exactly once (calls: {calls})")
+        other = [c for c in calls if c not in {f"{spec_name}.{f}.extend({add_name}.{f})" for f in fields}]
+        others_stmt = [type(x).__name__ for x in lp.body if not (isinstance(x, ast.Assign) or (isinstance(x, ast.Expr) and isinstance(x.value, ast.Call)))]
+        ob(not other and not others_stmt, "merge:create_lsp_model:frame", f"the loop body does something besides the five extends ({other} {others_stmt})")
+        skips = [type(x).__name__ for x in ast.walk(lp) if isinstance(x, (ast.Continue, ast.Break, ast.If))]
+        ob(not skips, "merge:create_lsp_model:no-skip", f"the merge loop is conditional ({skips}): some document or declaration can be skipped")
+    rets = [x for x in ast.walk(fn) if isinstance(x, ast.Return)]
+    ob(len(rets) == 1 and rets[0].value is not None and ast.unparse(rets[0].value) == spec_name, "merge:create_lsp_model:return", "create_lsp_model does not return the merged model")
+    return n, ok
+
+
 def run_gate_native(run: Run, plugins: List[str], tmp: str) -> int:
     """Schema-violating single edits x plugins: the command must fail and write nothing (replay of the gate)."""
     import jsonschema
@@ -463,6 +509,9 @@ def main(argv: List[str]) -> int:
             tab(drop_empty_defaults(read_back(merged)) == drop_empty_defaults(whole), f"merge:concat:{len(parts)}", f"create_lsp_model of {len(parts)} documents is not the first extended in order by the others", cuts=cuts)
         except Exception as e:  # noqa
             tab(False, f"merge:concat:{len(parts)}", f"create_lsp_model of {len(parts)} documents raises {type(e).__name__}: {e}", cuts=cuts)
+    nm, okm = merge_obligations(run)
+    n_tab += nm
+    d_tab += okm
     # ---- 5. gate
     ng, okg, ginfo = gate_obligations(run)
     import jsonschema
@@ -495,7 +544,7 @@ def main(argv: List[str]) -> int:
         "field values of model objects are opaque in the VCs: `a.f == b.f` is an uninterpreted Boolean per field and pair of owners (equality of lists / nested nodes is Python's and the nested class's own contract)",
         "jsonschema.validate raises iff the document is invalid for the schema object it is given",
         "the gate's control-flow obligations are structural (AST) facts about main(): validate and append are unconditional statements of one loop over all model files, in that order, before create_lsp_model and the plugin",
-        "merge = concatenation is evaluated on splits of the committed model (bounded), not deduced",
+        "merge = concatenation: structural obligations on create_lsp_model (first document loaded, one loop over models[1:], exactly the five extends per iteration, nothing conditional) plus evaluation on splits of the committed model; list.extend semantics assumed",
         "lossless loading rests on the finite schema <-> model-class comparison plus attrs constructor semantics (assumed); read-back is evaluated on the committed model",
     )
     cov = stats.coverage()
